@@ -472,6 +472,11 @@ m('redo-spins-on-torn-tail', ['C01', 'C20'], LR, """		if bufferOffset == 0 {
 			break
 		}
 """, """""", ['C01-R10 [Redo:chunk-loop-progresses-or-stops]'])
+m('index-join-over-filtered-right-plan', ['C11', 'C06'], SO, """		if seqScan, ok := rightScan.(*plans.SeqScanPlanNode); ok && seqScan.GetPredicate() == nil {
+			isRightPlainScan = true
+		}
+""", """		isRightPlainScan = rightScan != nil
+""", ['C11-R6 [(*planner/optimizer.SelingerOptimizer).findBestJoinInner:index-join-only-over-an-unfiltered-right-scan]'])
 # drop the one that needs a helper that does not exist
 M = [x for x in M if x['id'] != 'insert-executor-unlocks-early']
 os.chdir(os.path.dirname(os.path.abspath(__file__)) + '/..')
